@@ -203,22 +203,37 @@ class SV:
         return NotImplemented if isinstance(o, np.ndarray) or getattr(o, '_is_matrix', False) else compare('>=', self, o)
 
     def __invert__(self):
-        return b_not(self)
+        if self.kind == 'b':
+            return b_not(self)
+        return arith('-', arith('-', 0, self), 1)      # ~x == -x-1 for Python ints
 
     def __and__(self, o):
-        return b_and(self, o)
+        return bitop('&', self, o)
 
     def __rand__(self, o):
-        return b_and(o, self)
+        return bitop('&', o, self)
 
     def __or__(self, o):
-        return b_or(self, o)
+        return bitop('|', self, o)
 
     def __ror__(self, o):
-        return b_or(o, self)
+        return bitop('|', o, self)
 
     def __xor__(self, o):
-        return compare('!=', to_bool(self), to_bool(o))
+        return bitop('^', self, o)
+
+    def __rxor__(self, o):
+        return bitop('^', o, self)
+
+    def __lshift__(self, k):
+        if is_sym(k):
+            raise NeedConcrete('symbolic shift amount')
+        return arith('*', self, 1 << int(k))
+
+    def __rshift__(self, k):
+        if is_sym(k):
+            raise NeedConcrete('symbolic shift amount')
+        return arith('//', self, 1 << int(k))
 
     # numpy scalar look-alikes used by the class layer
     def astype(self, t):
@@ -373,6 +388,34 @@ def arith(op, a, b):
             return res
         raise NeedConcrete('sym**sym')
     raise NotImplementedError(op)
+
+
+def _boolish(x):
+    return isinstance(x, (bool, np.bool_)) or (isinstance(x, SV) and x.kind == 'b')
+
+
+def bitop(op, a, b):
+    """Python / numpy semantics of & | ^ : logical on booleans, bitwise on (non-negative) integers"""
+    if isinstance(a, np.ndarray) or isinstance(b, np.ndarray):
+        return NotImplemented
+    if _boolish(a) and _boolish(b):
+        if op == '&':
+            return b_and(a, b)
+        if op == '|':
+            return b_or(a, b)
+        return compare('!=', to_bool(a), to_bool(b))
+    a = to_int(a)
+    b = to_int(b)
+    if not is_sym(a) and not is_sym(b):
+        return {'&': operator.and_, '|': operator.or_, '^': operator.xor}[op](a, b)
+    (al, ah), (bl, bh) = bounds(a), bounds(b)
+    if al < 0 or bl < 0:
+        raise NeedConcrete('bitwise operator on a possibly negative symbolic integer')
+    w = max(ah.bit_length(), bh.bit_length(), 1) + 1
+    x, y = bv(a, w), bv(b, w)
+    e = {'&': x & y, '|': x | y, '^': x ^ y}[op]
+    hi = (1 << (w - 1)) - 1 if op != '&' else min(ah, bh)
+    return SV.mk(e, 0, hi)
 
 
 def mkbool(e):
